@@ -670,3 +670,65 @@ mut('C02', 'integration-branch-created-pushed', INTEG,
 mut('C02', 'wbranches-remove-pushes', INTEG,
     "        try:\n            wbranch.remove()\n        except git.RemoveFailedException:\n            # ignore failures as this is non critical",
     "        try:\n            wbranch.remove(do_push=True)\n        except git.RemoveFailedException:\n            # ignore failures as this is non critical")
+
+# ------------------------------------------------------------------- C01
+mut('C01', 'prev-target-dropped', INTEG,
+    "            robust_merge(wbranch.dst_branch, prev.dst_branch, wbranch)",
+    "            robust_merge(wbranch.dst_branch, wbranch, wbranch)")
+mut('C01', 'prev-is-first', INTEG,
+    "            consecutive_merge(wbranch.dst_branch, prev.dst_branch, wbranch)\n        else:\n            robust_merge(wbranch.dst_branch, prev.dst_branch, wbranch)",
+    "            consecutive_merge(wbranch.dst_branch, first.dst_branch, wbranch)\n        else:\n            robust_merge(wbranch.dst_branch, first.dst_branch, wbranch)")
+mut('C01', 'prev-not-advanced', INTEG,
+    "            robust_merge(wbranch.dst_branch, prev.dst_branch, wbranch)\n        prev = wbranch\n",
+    "            robust_merge(wbranch.dst_branch, prev.dst_branch, wbranch)\n")
+mut('C01', 'qint-not-refreshed', QUEUE,
+    "            qint = get_queue_integration_branch(job, pr_id, wbranch)\n            qint.create(qbranch, do_push=False)\n            to_push.append(qint)\n    except",
+    "            nqint = get_queue_integration_branch(job, pr_id, wbranch)\n            nqint.create(qbranch, do_push=False)\n            to_push.append(nqint)\n    except")
+mut('C01', 'qint-cut-before-merge', QUEUE,
+    "        qbranch.merge(wbranch)\n        qint = get_queue_integration_branch(job, pr_id, wbranch)\n        qint.create(qbranch, do_push=False)\n",
+    "        qint = get_queue_integration_branch(job, pr_id, wbranch)\n        qint.create(qbranch, do_push=False)\n        qbranch.merge(wbranch)\n")
+mut('C01', 'queue-merge-without-qint', QUEUE,
+    "                robust_merge(qbranch, wbranch, qint)",
+    "                robust_merge(qbranch, wbranch, wbranch)")
+mut('C01', 'consecutive-retry-one-source', GITUTILS,
+    "            dst.reset(False, False)\n            dst.merge(src2)\n            dst.merge(src1)\n        except git.MergeFailedException:\n            raise",
+    "            dst.reset(False, False)\n            dst.merge(src2)\n        except git.MergeFailedException:\n            raise")
+mut('C01', 'octopus-retry-one-source', GITUTILS,
+    "            dst.reset(False, False)\n            dst.merge(src2, src1)",
+    "            dst.reset(False, False)\n            dst.merge(src2)")
+mut('C01', 'robust-merges-empty-octopus', GITUTILS,
+    "    if oct_conflict is not None:\n        dst.merge(tmp_cns)\n    elif",
+    "    if oct_conflict is not None:\n        dst.merge(tmp_oct)\n    elif")
+mut('C01', 'robust-skips-consecutive', GITUTILS,
+    "    consecutive_merge(tmp_cns, src1, src2)\n\n    if oct_conflict",
+    "    if oct_conflict is None:\n        consecutive_merge(tmp_cns, src1, src2)\n\n    if oct_conflict")
+mut('C01', 'queues-validate-after-merge', QUEUE,
+    "    queues = build_queue_collection(job)\n    queues.validate()\n\n    # Update the queue status",
+    "    queues = build_queue_collection(job)\n\n    # Update the queue status")
+mut('C01', 'create-branch-no-validate', CREATE,
+    "        new_cascade.build(job.git.repo)\n        new_cascade.validate()\n",
+    "        new_cascade.build(job.git.repo)\n")
+mut('C01', 'create-branch-validates-old-cascade', CREATE,
+    "        new_cascade = BranchCascade()\n        new_cascade.build(job.git.repo)\n        new_cascade.validate()\n",
+    "        cascade.validate()\n")
+mut('C01', 'update-merges-into-destination', INTEG,
+    "    for idx, branch in enumerate(children):\n        update(branch, prev)\n        prev = branch",
+    "    for idx, branch in enumerate(children):\n        update(branch, prev)\n        branch.dst_branch.merge(branch)\n        prev = branch")
+mut('C01', 'cascade-validate-drops-prev-check', BRANCHES,
+    "            if previous_dev_branch:\n                if not dev_branch.includes_commit(previous_dev_branch):\n                    raise errors.DevBranchesNotSelfContained(\n                        previous_dev_branch, dev_branch)\n\n",
+    "")
+mut('C01', 'cascade-validate-prev-stale', BRANCHES,
+    "            previous_dev_branch = dev_branch\n\n    def _update_major_versions",
+    "            if previous_dev_branch is None:\n                previous_dev_branch = dev_branch\n\n    def _update_major_versions")
+mut('C01', 'process-ignores-validated', BRANCHES,
+    "        if not self._validated:\n            raise errors.QueuesNotValidated()\n\n        mergeable_prs = self._extract_pr_ids(self._queues)",
+    "        mergeable_prs = self._extract_pr_ids(self._queues)")
+mut('C01', 'validated-despite-errors', BRANCHES,
+    "        if errs:\n            raise errors.IncoherentQueues(errs)\n\n        self._validated = True",
+    "        self._validated = True\n        if errs:\n            raise errors.IncoherentQueues(errs)\n")
+mut('C01', 'destination-recreated', QUEUE,
+    "    if not qbranch.exists() and create:\n        qbranch.create(dev_branch)",
+    "    if not qbranch.exists() and create:\n        qbranch.create(dev_branch)\n        dev_branch.create(qbranch, do_push=False)")
+mut('C01', 'pr-cascade-not-validated', GWF,
+    "    build_branch_cascade(job)\n    job.git.cascade.validate()\n\n    check_branch_compatibility(job)",
+    "    build_branch_cascade(job)\n\n    check_branch_compatibility(job)")
